@@ -227,7 +227,10 @@ func properties() map[string]*propDef {
 				add(1, 0, 8, 4)
 				add(2, 0, 8, 4)
 				add(4, 2, 3, 2)
+				add(1, 3, 1, 1)
 			} else {
+				add(1, 3, 3, 1)
+				add(2, 3, 3, 1)
 				add(0, 0, 9, 5)
 				add(1, 0, 13, 14)
 				add(2, 0, 11, 12)
